@@ -118,3 +118,16 @@ Definition batch_indices (perm : list nat) (bs : nat) : option (list (list nat))
   let n := List.length perm in
   if (bs =? 0) || (n <? bs) then None
   else Some (rows (n / bs) bs (firstn ((n / bs) * bs) perm)).
+
+(* ---- Stopper is a plain mutable dataclass: an attribute assigned on an existing instance (optim_flat itself
+   re-assigns stopper.patience) replaces the field; every method reads the CURRENT fields (the code keeps no
+   derived state).  A history of assignments after construction: ---- *)
+Inductive sop := SetMaxIter (n : nat) | SetPatience (n : nat) | SetAtol (q : Q) | SetRtol (q : Q).
+Definition apply_op (s : stopper) (o : sop) : stopper :=
+  match o with
+  | SetMaxIter n => mkStopper n (patience s) (atol s) (rtol s)
+  | SetPatience n => mkStopper (max_iter s) n (atol s) (rtol s)
+  | SetAtol q => mkStopper (max_iter s) (patience s) q (rtol s)
+  | SetRtol q => mkStopper (max_iter s) (patience s) (atol s) q
+  end.
+Definition apply_ops (s : stopper) (ops : list sop) : stopper := fold_left apply_op ops s.
